@@ -11,6 +11,12 @@
  (B) all-layouts   : EXHAUSTIVE over all bin layouts with <= 4 dimensions and product <= 24: gridpts(bins) is the full
      Cartesian product, each point once; a real LatticeSolver run on that layout starts its members at the cell centres.
  (C) samplers      : samplepts / fillpts / random_samples (seeded): right number of points, all inside [lb, ub].
+ (D) call-sequences: ONE ensemble instance driven by a sequence of public calls (Solve, Solve again, Solve(step=True),
+     k Steps, Step until Terminated, in seeded combinations; objective given to the first call or via SetObjective),
+     with and without evaluation / generation monitors on the ensemble.  After every call that completes a solve
+     (the ensemble reports Terminated) the accounting and reduction clauses are evaluated again against the shadow
+     log of ALL real cost calls made so far: total == sum over members == real calls, per member == its real calls,
+     best energy == min over members, best solution is that member's, number of members unchanged.
 """
 import math
 import random
@@ -290,6 +296,130 @@ def check_ens(spec, res):
     return None
 
 
+# ----------------------------------------------------------------------------- (D) sequences of calls on one ensemble
+SEQUENCES = [['solve', 'solve'], ['solve', 'solve', 'solve'], ['solve', 'solve-step'], ['solve', 'steps'],
+             ['solve-step', 'solve'], ['solve-step', 'solve-step'], ['steps', 'solve'], ['steps', 'steps', 'solve'],
+             ['step1', 'solve'], ['step3', 'solve', 'solve'], ['step1', 'step3', 'steps'], ['step3', 'solve-step', 'solve'],
+             ['solve', 'step1', 'steps'], ['solve', 'solve', 'step3', 'solve']]
+
+
+def gen_seq_specs(seed, n):
+    rng = random.Random(seed + 909)
+    out = []
+    for k in range(n):
+        ndim = rng.choice([1, 2, 2, 3])
+        lo = [round(rng.uniform(-5, 0), 2) for _ in range(ndim)]
+        hi = [l + rng.choice([1.0, 2.5, 6.0]) for l in lo]
+        out.append(dict(kind='seq', ens=['lattice', 'buckshot', 'sparsity'][k % 3], ndim=ndim, lo=lo, hi=hi,
+                        nested=rng.choice(['NM', 'NM', 'Powell', 'Powell', 'DE']),
+                        nbins=[rng.choice([1, 2, 3]) for _ in range(ndim)], npts=rng.choice([1, 2, 4, 5]),
+                        bounds=rng.random() < 0.8, cons=False, pen=rng.random() < 0.25, cost=rng.choice(sorted(COSTS)),
+                        maxiter=rng.choice([None, 4, 15, 40]), maxfun=rng.choice([None, None, 30, 400]),
+                        term=rng.choice(['vtr', 'ncog', 'cog', 'default']), ops=SEQUENCES[k % len(SEQUENCES)],
+                        objective=rng.choice(['arg', 'set']), evalmon=rng.random() < 0.4, genmon=rng.random() < 0.4,
+                        map=rng.choice(sorted(MAPS) + [None]), seed=rng.randrange(10 ** 6)))
+    return out
+
+
+def accounting(s, expected, log, x_is_list=True):
+    """accounting / reduction clauses of the statement on the present state of ensemble s; log = all real calls so far"""
+    viol = []
+    members = list(s._allSolvers)
+    if len(members) != expected or any(m is None for m in members):
+        return [('member-count-is-not-product-of-bins-or-number-of-points',
+                 '%d members (%d unset), %d requested' % (len(members), sum(m is None for m in members), expected))]
+    total, evs = s._total_evals, [int(m.evaluations) for m in members]
+    if total != len(log):
+        viol.append(('total-evaluations-differ-from-real-cost-calls', 'reported total %r, real calls %d, members report %r'
+                     % (total, len(log), evs)))
+    if total != sum(evs) or list(s._all_evals) != evs:
+        viol.append(('total-evaluations-differ-from-sum-over-members', 'total %r, _all_evals %r, members %r' % (total, list(s._all_evals), evs)))
+    if all(m is not None for m, p, v in log):        # calls are attributed to members only under an announcing map
+        real = [len([1 for m, p, v in log if m == i]) for i in range(len(members))]
+        if evs != real:
+            viol.append(('member-evaluations-differ-from-its-real-cost-calls', 'members report %r, real calls %r' % (evs, real)))
+    x, fval = [float(v) for v in np.atleast_1d(s.bestSolution)], _f(s.bestEnergy)
+    es = [_f(m.bestEnergy) for m in members]
+    if not (fval == min(es)):
+        viol.append(('best-energy-is-not-min-over-members', 'reported %r, members %r' % (fval, es)))
+    elif not any(e == fval and [float(v) for v in m.bestSolution] == x for e, m in zip(es, members)):
+        viol.append(('best-solution-is-not-the-best-members', 'reported %r, members %r' % (x, [list(map(float, m.bestSolution)) for m in members])))
+    return viol
+
+
+def run_seq(spec):
+    """returns (violations [(clause, detail)], info)"""
+    from mystic import solvers as MS
+    from mystic import termination as T
+    from mystic.monitors import Monitor
+    seed_all(spec['seed'])
+    del _LOG[:]
+    n, lo, hi = spec['ndim'], spec['lo'], spec['hi']
+    cost = Logged(spec['cost'])
+    size = spec['nbins'] if spec['ens'] == 'lattice' else spec['npts']
+    expected = int(np.prod(size))
+    s = getattr(MS, spec['ens'].capitalize() + 'Solver')(n, size)
+    s.SetNestedSolver(_nested(spec))
+    if spec['bounds']:
+        s.SetStrictRanges(list(lo), list(hi))
+    if spec['pen']:
+        s.SetPenalty(pen_fn)
+    if spec['evalmon']:
+        s.SetEvaluationMonitor(Monitor())
+    if spec['genmon']:
+        s.SetGenerationMonitor(Monitor())
+    s.SetEvaluationLimits(generations=spec['maxiter'], evaluations=spec['maxfun'])
+    if spec['term'] != 'default':
+        s.SetTermination({'vtr': T.VTR(0.05), 'ncog': T.NormalizedChangeOverGeneration(1e-4, 4),
+                          'cog': T.ChangeOverGeneration(1e-6, 5)}[spec['term']])
+    if spec['map'] is not None:
+        s.SetMapper(MAPS[spec['map']])
+    if spec['objective'] == 'set':
+        s.SetObjective(cost)
+    viol, done = [], 0
+    for k, op in enumerate(spec['ops']):
+        a = (cost,) if (k == 0 and spec['objective'] == 'arg') else ()
+        if op == 'solve':
+            s.Solve(*a)
+        elif op == 'solve-step':
+            s.Solve(*a, step=True)
+        else:
+            guard = {'step1': 1, 'step3': 3, 'steps': 3000}[op]
+            while guard and not (op == 'steps' and s.Terminated()):
+                s.Step(*a)
+                a = ()
+                guard -= 1
+            if op == 'steps' and not s.Terminated():
+                return viol, {'aborted': 'no termination after 3000 ensemble steps', 'calls': len(_LOG)}
+        if op in ('solve', 'solve-step', 'steps') and s.Terminated():       # a solve has been completed
+            done += 1
+            for clause, detail in accounting(s, expected, list(_LOG)):
+                viol.append((clause, 'after call %d of %r: %s' % (k + 1, spec['ops'], detail)))
+            if viol:
+                break
+    return viol, {'calls': len(_LOG), 'completed': done}
+
+
+def check_seq(spec, res):
+    try:
+        viol, info = run_seq(spec)
+    except (RuntimeError, AssertionError):
+        raise
+    except Exception as e:      # noqa -- an exception of mystic: not a violation of these clauses, scenario aborted
+        import traceback
+        tb = traceback.extract_tb(e.__traceback__)
+        if not any('/mystic/' in fr.filename for fr in tb) or 'rtc/c09' in tb[-1].filename:
+            raise
+        return 'call sequence %r: %s: %s (%s:%d)' % (spec['ops'], type(e).__name__, str(e)[:80], tb[-1].filename.split('/')[-1], tb[-1].lineno)
+    key = (spec['ens'], spec['nested'], tuple(spec['ops']), spec['objective'], spec['evalmon'], spec['genmon'], spec['map'],
+           spec['bounds'], spec['pen'], spec['term'], spec['maxiter'], spec['maxfun'])
+    res.case('seq:' + repr(key), nontrivial=info.get('calls', 0) > 0 and info.get('completed', 0) > 0)
+    for clause, detail in viol:
+        res.violation(P + 'call-sequences/' + clause, '%s/%s evalmon=%s: %s' % (spec['ens'], spec['nested'], spec['evalmon'], detail),
+                      jsonable(spec))
+    return info.get('aborted')
+
+
 # ----------------------------------------------------------------------------- (B) all bin layouts (exhaustive)
 def all_layouts(maxdim=4, maxprod=24):
     out = []
@@ -389,11 +519,14 @@ def check_sampler(spec, res):
 
 
 # ----------------------------------------------------------------------------- driver
+CHECKS = {'ens': check_ens, 'layout': check_layout, 'sampler': check_sampler, 'seq': check_seq}
+
+
 def _work(chunk):
     res = Result('', '')
     aborted = []
     for spec in chunk:
-        a = {'ens': check_ens, 'layout': check_layout, 'sampler': check_sampler}[spec['kind']](spec, res)
+        a = CHECKS[spec['kind']](spec, res)
         if a:
             aborted.append(a)
     out = res.part()
@@ -403,7 +536,7 @@ def _work(chunk):
 
 def run(tier='quick', seed=0):
     quick = tier == 'quick'
-    n_ens, n_samp = (420, 240) if quick else (9000, 6000)
+    n_ens, n_samp, n_seq = (420, 240, 210) if quick else (9000, 6000, 4200)
     layouts = [dict(kind='layout', layout=l) for l in all_layouts()]
     res = Result(
         rule='(A) seeded ensemble scenarios: {Lattice, Buckshot, Sparsity} x {class API, wrapper function} x nested {NM, '
@@ -412,11 +545,14 @@ def run(tier='quick', seed=0):
              'it (shadow, independent of the solver counters); distinct = distinct settings tuple. (B) EVERY bin layout '
              'with <= 4 dimensions and product <= 24: gridpts == full Cartesian product, each point once, and a real '
              'LatticeSolver run starts its members at the cell centres, each cell once. (C) seeded samplepts / '
-             'random_samples / fillpts calls: number of points and lb <= x <= ub.',
-        bound='%d ensemble scenarios (dims 1-3, <= 27 members), all %d bin layouts (exhaustive), %d sampler calls (dims 1-4)'
-              % (n_ens, len(layouts), n_samp))
-    specs = gen_specs(seed, n_ens) + layouts + gen_sampler_specs(seed, n_samp)
-    for kind in ('ens', 'layout', 'sampler'):
+             'random_samples / fillpts calls: number of points and lb <= x <= ub. (D) seeded ensemble scenarios (class '
+             'API, with/without evaluation and generation monitors, announcing maps or the builtin map) x %d fixed '
+             'sequences of Solve / Solve(step=True) / k Steps / Step-until-Terminated on the SAME instance: accounting '
+             'and reduction clauses re-evaluated after every call that completes a solve.' % len(SEQUENCES),
+        bound='%d ensemble scenarios (dims 1-3, <= 27 members), all %d bin layouts (exhaustive), %d sampler calls (dims 1-4), '
+              '%d call-sequence scenarios (<= 4 calls each)' % (n_ens, len(layouts), n_samp, n_seq))
+    specs = gen_specs(seed, n_ens) + layouts + gen_sampler_specs(seed, n_samp) + gen_seq_specs(seed, n_seq)
+    for kind in ('ens', 'layout', 'sampler', 'seq'):
         res.samples.append(jsonable([sp for sp in specs if sp['kind'] == kind][0]))
     random.Random(seed).shuffle(specs)
     chunks = [specs[i::96] for i in range(96)]
@@ -434,5 +570,5 @@ def run(tier='quick', seed=0):
 
 def replay(inp):
     res = Result('', '')
-    {'ens': check_ens, 'layout': check_layout, 'sampler': check_sampler}[inp['kind']](inp, res)
+    CHECKS[inp['kind']](inp, res)
     return not res.violations
